@@ -44,14 +44,19 @@ class _Selector:
             # next timer deadline instead of starving all timers for ever.
             if loop._vtime == loop._spin_at:
                 loop._spin_count += 1
-                if loop._spin_count > SPIN_LIMIT and loop._scheduled:
+                # once a spinner has been recognised, later jumps need only a few iterations (until the ready
+                # queue drains again, see below)
+                if loop._spin_count > (SPIN_LIMIT if not loop._spin_mode else 20) and loop._scheduled:
                     when = loop._scheduled[0]._when
                     if when > loop._vtime:
                         loop._vtime = when
                         loop.spin_jumps += 1
+                        loop._spin_mode = True
             else:
                 loop._spin_at = loop._vtime
                 loop._spin_count = 0
+        else:
+            loop._spin_mode = False
         if timeout > 0:
             sched = loop._scheduled
             if sched:
@@ -79,6 +84,7 @@ class VirtualLoop(asyncio.BaseEventLoop):
         self.errors: list[dict] = []
         self._spin_at = None
         self._spin_count = 0
+        self._spin_mode = False
         self.spin_jumps = 0
         # callable () -> float delay (virtual seconds; 0 -> call_soon)
         self.executor_delay = None
